@@ -192,3 +192,5 @@ def check(prog: Program, rep):
     from rules.common import RuleProxy
     plumb.stgraph_starts_rule(prog, RuleProxy(rep, "C09.R9"), "C10.R8")
     antichain_network(prog, RuleProxy(rep, "C09.R9"), "C17.R6")
+    from rules.values import no_recursion
+    no_recursion(prog, RuleProxy(rep, "C09.R9"), "C06.R7", ["flowpaths.utils.dominators", "flowpaths.utils.safetypathcoverscycles"])
